@@ -31,6 +31,7 @@ inductive Err where
   | type        -- TypeError
   | attribute   -- AttributeError
   | notFound    -- ModuleNotFoundError
+  | fuel        -- not a Python exception: the model's recursion budget ran out (proved impossible, C15 parse_total)
   deriving DecidableEq, Repr, Inhabited
 
 def Err.name : Err → String
@@ -42,6 +43,7 @@ def Err.name : Err → String
   | .type => "TypeError"
   | .attribute => "AttributeError"
   | .notFound => "ModuleNotFoundError"
+  | .fuel => "MODEL-FUEL-EXHAUSTED"
 
 abbrev R (α : Type) := Except Err α
 
